@@ -590,7 +590,7 @@ pub fn run_c10(ctx: &Ctx) -> i32 {
         msgs.push(Out::S1.message(now, 0, as_of));
         for &leap in &leaps[ci * chunk..((ci + 1) * chunk).min(leaps.len())] {
             let leap = leap as u16;
-            if aux != 0 && !(leap <= 8 || leap >= 65530 || (tier == Tier::Thorough && leap % 257 == 0)) {
+            if aux != 0 && tier == Tier::Quick && !(leap <= 8 || leap >= 65530) {
                 continue;
             }
             for iv in &intervals {
@@ -740,7 +740,7 @@ pub fn run_c10(ctx: &Ctx) -> i32 {
         ("rule", json!("all leap-status values (step given) x update-interval alphabet x reference-time ages at -1 ns, -1 s, 0, 8I-1ns, 8I, 8I+1ns, floor(8I) s, floor(8I)+1 s, 1e6 s x status before (Synchronized / FreeRunning / Unknown, each after a first synchronised report); all distinct; non-trivial = leap status 0..3 or a future reference time")),
         ("samples", json!(samples)),
         ("leap_status_values", json!(leaps.len())),
-        ("unrelated_report_fields", json!("4 variants of stratum / source address / last offset / RMS offset / frequency / residual frequency / skew (zero; small mixed signs; large positive; extreme encodings): variant 0 with every leap code, the others with leap codes 0..8, 65530..65535 (thorough: and every 257th)")),
+        ("unrelated_report_fields", json!("4 variants of stratum / source address / last offset / RMS offset / frequency / residual frequency / skew (zero; small mixed signs; large positive; extreme encodings): variant 0 with every leap code, the others with leap codes 0..8, 65530..65535 (thorough: every leap code with every variant)")),
         ("leap_step", json!(leap_step)),
         ("update_intervals_s", json!(intervals)),
         ("published_status_classes", json!(classes)),
